@@ -59,7 +59,7 @@ fn finish(_tier: Tier, rep: &mut Report) {
     if rep.get("decode_checked") < 60_000 {
         rep.inconclusive("fewer than 60000 decodes were checked");
     }
-    if rep.get("drain[vectored]") == 0 || rep.get("drain[advance_across_seam]") == 0 {
+    if rep.get("drain[vectored]") == 0 || rep.get("drain[advance_across_seam]") == 0 || rep.get("drain[copy_to_bytes_partial]") == 0 {
         rep.inconclusive("a consumption pattern was never exercised");
     }
     if rep.get("skip_crosses_seam") < 10_000 {
@@ -122,7 +122,19 @@ fn drain<B: Buf>(mut buf: B, pattern: u64, rng: &mut Rng, rep: &mut Report) -> R
             return Err("drain does not terminate".into());
         }
         let rem = buf.remaining();
+        // pattern 7: a consumer that mixes the reading methods on one buffer
+        let pattern = if pattern == 7 { *rng.pick(&[1u64, 2, 4, 6, 6]) } else { pattern };
         match pattern {
+            6 => {
+                // copy_to_bytes of small sizes: ends inside the header, on the seam, inside the payload
+                let n = 1 + rng.usize(rem.min(11));
+                let b = buf.copy_to_bytes(n);
+                if b.len() != n {
+                    return Err(format!("copy_to_bytes({}) returned {} bytes", n, b.len()));
+                }
+                out.extend_from_slice(&b);
+                rep.count("drain[copy_to_bytes_partial]");
+            }
             0 => {
                 // chunk + advance whole chunk
                 let c = buf.chunk().to_vec();
@@ -212,7 +224,7 @@ fn check_encode(k: u64, payload: &[u8], segmented: bool, rng: &mut Rng, rep: &mu
     let sid = StreamId::try_from(sid_raw).expect("valid stream id");
     let mut expect = rv::encode(k).unwrap();
     expect.extend_from_slice(payload);
-    let pattern = rng.below(6);
+    let pattern = rng.below(8);
     let case = json!({"stream_id": sid_raw, "payload": hex_short(payload, 24), "payload_len": payload.len(), "drain_pattern": pattern, "segmented_payload": segmented});
     let got = crate::panics::catch(|| {
         if segmented {
